@@ -352,6 +352,27 @@ TOKCFGS = [
         synonyms={'W': 'WORD', 'EQ': '='},
     ),
     TokCfg(
+        "keyword-called-like-a-pattern",
+        # the sign '!' and the word 'not' are two tokens: the pattern NOT is reported as '!', the keyword 'not' as NOT
+        r"(?P<SPACE>\s+)|(?P<NOT>!)|(?P<W>[a-z]+)|(?P<EQ>=)",
+        ['WORD', '!', 'NOT', '='],
+        {'WORD': ['a', 'bc', 'no', 'nott'], '!': ['!'], 'NOT': ['not'], '=': ['=']},
+        [" ", "\n", "  "],
+        synonyms={'NOT': '!', 'W': 'WORD', 'EQ': '='},
+        keywords={('WORD', 'not'): 'NOT'},
+    ),
+    TokCfg(
+        "two-kinds-of-comments",
+        # block comments are a multi-line token whose opening group is itself called COMMENT; comments to the end of
+        # the line are another pattern, reported as COMMENT too (both skipped by default)
+        r"(?P<SPACE>\s+)|(?P<COMMENT>/\*)|(?P<COMMENT_EOL>//.*)|(?P<W>[a-z]+)|(?P<EQ>=)",
+        ['WORD', '='],
+        {'WORD': ['a', 'bc'], '=': ['=']},
+        [" ", "\n", " // note = a\n", " /* x\n = y */ ", "//\n", " /**/ ", " // a /* b\n", "  "],
+        synonyms={'COMMENT_EOL': 'COMMENT', 'W': 'WORD', 'EQ': '='},
+        span_matchers={'COMMENT': r"(?P<END_COMMENT>(.|\n)*?)\*/"},
+    ),
+    TokCfg(
         "nine-letters",
         r"(?P<SPACE>\s+)|" + "|".join("(?P<%s>%s)" % (ch.upper(), ch) for ch in "abcdefghi"),
         list("abcdefghi"),
